@@ -227,6 +227,20 @@ def r1_inclusion_and_conflicts(chk):
             if d2.buildable:
                 check_pair(chk, 'C17.R1', ds['smiV1'], d2, 'smiV1', 'smiV1+{%s}' % opt)
                 check_pair(chk, 'C17.R1', d2, ds['smiV1Relaxed'], 'smiV1+{%s}' % opt, 'smiV1Relaxed')
+    # every single option, where buildable on its own, below each shipped dialect that enables it - and each shipped
+    # dialect with one of its options left out below the dialect itself: when two options replace the same grammar
+    # function the later one wins (parserFactory), and what the earlier one added must not get lost
+    for nme in ('smiV1', 'smiV1Relaxed'):
+        on = sorted(k for k, v in ship[nme].items() if v)
+        for opt in on:
+            d1 = dialect(model, {opt: True})
+            if d1.buildable:
+                check_pair(chk, 'C17.R1', d1, ds[nme], '{%s}' % opt, nme)
+            rest = dict((k, True) for k in on if k != opt)
+            if rest:
+                d2 = dialect(model, rest)
+                if d2.buildable:
+                    check_pair(chk, 'C17.R1', d2, ds[nme], '%s-{%s}' % (nme, opt), nme)
     chk.floor('C17.R1', 20, 'dialect pairs')
 
 
@@ -576,5 +590,40 @@ def r8_format_arity(chk):
     common.format_arity(chk, 'C17.R8', ['pysmi/parser/smi.py', 'pysmi/lexer/smi.py', 'pysmi/parser/dialect.py'], floor=10)
 
 
-RULES = [r1_inclusion_and_conflicts, r2_shared_terms, r3_added_alternatives, r4_lexer_tables, r5_factories, r6_tables_belong_to_their_grammar, r7_class_tables_not_mutated, r8_format_arity]
+
+def r9_options_do_not_compete(chk):
+    """parserFactory copies the functions of every enabled option into one class, later options overwriting earlier
+    ones: when two options supply a function of the same name with different productions, the grammar of a *set* of
+    options depends on the order in which the caller (or dialect.py) happens to list them"""
+    import ast as _ast
+    from vt.grammar import parse_doc
+    from vt.model import FuncVal
+    model = chk.model
+    chk.doc('C17.R9', 'relaxedGrammar (parser and lexer): a function name supplied by two different options has the same '
+                      'productions / value in both - the result of enabling a set of options does not depend on their order')
+    rg = module_value(model, PARSER, 'relaxedGrammar')
+    by = {}
+    for opt, fns in rg.items():
+        for fv in fns:
+            if isinstance(fv, FuncVal):
+                doc = _ast.get_docstring(fv.node, clean=False) or ''
+                try:
+                    prods = sorted(parse_doc(doc, fv.node.name))
+                except Exception:
+                    prods = [doc]
+                by.setdefault(fv.node.name, []).append((opt, prods, fv.node))
+    n = 0
+    for name, lst in sorted(by.items()):
+        if len(lst) < 2:
+            continue
+        n += 1
+        same = all(x[1] == lst[0][1] for x in lst)
+        chk.ob('C17.R9', 'relaxedGrammar/%s supplied by %s' % (name, '+'.join(sorted(x[0] for x in lst))), same,
+               where(model.mod(PARSER), lst[0][2]),
+               'options %s both replace %s, with different alternatives: whichever is applied last wins, so the '
+               'grammar of the two together depends on their order' % (sorted(x[0] for x in lst), name))
+    chk.ob('C17.R9', 'relaxedGrammar/scanned', True, PARSER, '%d function names supplied by more than one option' % n)
+
+
+RULES = [r1_inclusion_and_conflicts, r2_shared_terms, r3_added_alternatives, r4_lexer_tables, r5_factories, r6_tables_belong_to_their_grammar, r7_class_tables_not_mutated, r8_format_arity, r9_options_do_not_compete]
 THOROUGH_RULES = [r1_thorough_all_subsets]
